@@ -61,6 +61,7 @@ type c09Load struct {
 	out     *c09State // nil when the loader failed
 	errStr  string
 	exact   bool
+	exclude string // hash handed to the loader as FetchOptions.Exclude ("" = none)
 }
 
 // c09DoLoad reloads the current state of src (a log stored in d) through loader kind with limit n.
@@ -90,6 +91,15 @@ func c09DoLoad(d *c11Dag, src *ipfslog.IPFSLog, kind, n, conc int, forced bool, 
 	}
 	ignore := map[cid.Cid]bool{}
 	r := &c11Run{d: d, length: n, conc: conc, forced: forced, choose: choose, delay: delay, seed: seed, ignoreGets: ignore}
+	// FetchOptions.Exclude ("entries the caller already has"): one entry from the middle of the log in a
+	// third of the loads.  The fetcher does not use it, and NewFromEntry only merges the given entries
+	// back into what it fetched, so an unlimited load must rebuild the same log with or without it; with
+	// a limit NewFromEntry's candidates change, so there it is left out.
+	var excl []iface.IPFSLogEntry
+	if all := src.GetEntries().Slice(); seed%3 == 0 && len(all) >= 3 && (kind != c09Entries || n < 0) {
+		excl = []iface.IPFSLogEntry{all[1+int(seed/3)%(len(all)-2)]}
+		ld.exclude = excl[0].GetHash().String()
+	}
 	var loadFn func(ctx context.Context) (*ipfslog.IPFSLog, error)
 	switch kind {
 	case c09Manifest:
@@ -100,21 +110,21 @@ func c09DoLoad(d *c11Dag, src *ipfslog.IPFSLog, kind, n, conc int, forced bool, 
 		ignore[mh] = true
 		ld.starts = src.ToJSONLog().Heads
 		loadFn = func(ctx context.Context) (*ipfslog.IPFSLog, error) {
-			return ipfslog.NewFromMultihash(ctx, d.api, ident, mh, c09Opts(kind, ""), &ipfslog.FetchOptions{Length: lenp, Concurrency: conc})
+			return ipfslog.NewFromMultihash(ctx, d.api, ident, mh, c09Opts(kind, ""), &ipfslog.FetchOptions{Length: lenp, Concurrency: conc, Exclude: excl})
 		}
 	case c09EntryHash:
 		hs := src.Heads().Slice()
 		h := hs[0].GetHash()
 		ld.starts = []cid.Cid{h}
 		loadFn = func(ctx context.Context) (*ipfslog.IPFSLog, error) {
-			return ipfslog.NewFromEntryHash(ctx, d.api, ident, h, c09Opts(kind, ld.idGiven), &ipfslog.FetchOptions{Length: lenp, Concurrency: conc})
+			return ipfslog.NewFromEntryHash(ctx, d.api, ident, h, c09Opts(kind, ld.idGiven), &ipfslog.FetchOptions{Length: lenp, Concurrency: conc, Exclude: excl})
 		}
 	case c09JSON:
 		jl := src.ToJSONLog()
 		ld.starts = jl.Heads
 		r.conc = 32 // NewFromJSON does not forward Concurrency: the fetcher's default applies
 		loadFn = func(ctx context.Context) (*ipfslog.IPFSLog, error) {
-			return ipfslog.NewFromJSON(ctx, d.api, ident, jl, c09Opts(kind, ""), &entry.FetchOptions{Length: lenp, Concurrency: conc})
+			return ipfslog.NewFromJSON(ctx, d.api, ident, jl, c09Opts(kind, ""), &entry.FetchOptions{Length: lenp, Concurrency: conc, Exclude: excl})
 		}
 	case c09Entries:
 		hs := src.Heads().Slice()
@@ -126,7 +136,7 @@ func c09DoLoad(d *c11Dag, src *ipfslog.IPFSLog, kind, n, conc int, forced bool, 
 		}
 		supplied := append([]iface.IPFSLogEntry{}, hs...)
 		loadFn = func(ctx context.Context) (*ipfslog.IPFSLog, error) {
-			return ipfslog.NewFromEntry(ctx, d.api, ident, supplied, c09Opts(kind, ""), &entry.FetchOptions{Length: lenp, Concurrency: conc})
+			return ipfslog.NewFromEntry(ctx, d.api, ident, supplied, c09Opts(kind, ""), &entry.FetchOptions{Length: lenp, Concurrency: conc, Exclude: excl})
 		}
 	}
 	r.starts = ld.starts
@@ -397,7 +407,7 @@ func c09Monitor(mon *c11Monitor, ld *c09Load, d *c11Dag) {
 		for _, c := range ld.starts {
 			starts = append(starts, c.String())
 		}
-		return map[string]interface{}{"loader": name, "n": ld.n, "conc": ld.run.conc, "starts": starts, "source_values": src, "loaded_values": out, "err": ld.errStr}
+		return map[string]interface{}{"loader": name, "n": ld.n, "conc": ld.run.conc, "starts": starts, "source_values": src, "loaded_values": out, "err": ld.errStr, "exclude_option": ld.exclude}
 	}
 	if ld.run.skipped {
 		return
